@@ -103,7 +103,7 @@ def main():
             {"name": "mirlib+obligations", "path": "/verif/salsa_verif", "serves_properties": sorted(CLAIMED), "kind_free_text": "python3 static analyses (CFG pruning, dominators, reaching-definition origins, edge-cut guard analysis with helper inlining, must-call summaries) + per-property obligation catalogue"},
         ],
         "checks": checks,
-        "notes": "Technique family: static analysis only. exit 0 = all obligations discharged; exit 1 + VIOLATION = a positive contradiction, or (fail closed) an obligation that could not be established on this source - anchor missing / value of a form the rule cannot classify; the replay file then says kind=unestablished and an INCONCLUSIVE line gives the reason; exit 3 only if the tree does not build in the analysed configuration (nothing analysed).",
+        "notes": "Technique family: static analysis only. exit 0 = all obligations discharged; exit 1 + VIOLATION = a positive contradiction, or (fail closed) an obligation that could not be established on this source - anchor missing / value of a form the rule cannot classify; the replay file then says kind=unestablished and an INCONCLUSIVE line gives the reason; exit 3 only if the tree does not build in the analysed configuration (nothing analysed). No hooks were added to /repo; /repo carries three unguarded `fix:` commits for genuine defects (30763b3 F1, e21661c F3, 028d247 F4) and four recorded known findings (F2, F2b, F5, F6) - see known_findings.json and DESIGN.md.",
         "not_applicable": na,
     }
     json.dump(m, open(os.path.join(ROOT, "MANIFEST.json"), "w"), indent=1)
